@@ -237,9 +237,11 @@ def main(argv=None):
         json.dump(ev, f, indent=1, default=str)
     print('SUMMARY property=%s tier=%s obligations=%d proved=%d inconclusive=%d known=%d violations=%d wall=%.1fs'
           % (pid, a.tier, len(results), n_proved, n_inc, n_known, n_viol, time.time() - t0))
+    if n_viol:
+        sys.exit(1)          # a replay-confirmed violation stands whatever else went wrong in other groups
     if errors:
         sys.exit(3)
-    sys.exit(1 if n_viol else 0)
+    sys.exit(0)
 
 
 def _count(xs):
